@@ -15,51 +15,39 @@ Theorem C32_chunking_irrelevant : forall s1 s2 q, handle s1 q = handle s2 q.
 Proof. exact handle_script_irrelevant. Qed.
 Print Assumptions C32_chunking_irrelevant.
 
-(** FULL STATEMENT of the size clause (refuted below):
-      forall script q, precheck q = None -> u_end (q_stream q) = EndEOF -> 0 < q_limit q ->
-        (r_status (handle script q) = 413 <-> q_limit q < |u_rem (q_stream q)|).
-    The faithful model refutes it at |body| = limit: LimitedReadCloser.Read flags the limit when
-    it is CALLED with N <= 0, which io.ReadAll does to probe for EOF after exactly N bytes.
-    Witness: limit 8, body "m f=1 1\n" (8 bytes, well formed), a reader that reports EOF on the
-    next call (bytes.Reader): 413, nothing stored.  Replayed on the real handler (known finding
-    limit-exact-body-rejected; harness/cmd/c32 hand-picked cases). *)
-Definition c32_witness : request :=
-  {| q_auth := true; q_prec_valid := true; q_bucket_param := true; q_gzip_header := true;
-     q_org_found := true; q_bucket_found := true; q_perm := true; q_prec := P_ns; q_limit := 8;
-     q_stream := {| u_rem := [109; 32; 102; 61; 49; 32; 49; 10]%N; u_end := EndEOF; u_eager := false |};
-     q_writer := WOk |}.
-Theorem C32_limit_iff_refuted :
-  precheck c32_witness = None /\ u_end (q_stream c32_witness) = EndEOF /\
-  Z.of_nat (length (u_rem (q_stream c32_witness))) = q_limit c32_witness /\
-  bad_lines c32_witness = [] /\
-  handle [] c32_witness = resp 413 C_TOO_LARGE /\
-  (* the same request over a reader that reports EOF with the last bytes is stored *)
-  r_status (handle [] {| q_auth := true; q_prec_valid := true; q_bucket_param := true; q_gzip_header := true;
-     q_org_found := true; q_bucket_found := true; q_perm := true; q_prec := P_ns; q_limit := 8;
-     q_stream := {| u_rem := [109; 32; 102; 61; 49; 32; 49; 10]%N; u_end := EndEOF; u_eager := true |};
-     q_writer := WOk |}) = 204%N.
-Proof. vm_compute. repeat split; reflexivity. Qed.
-Print Assumptions C32_limit_iff_refuted.
-
-(** Strongest true weakening: away from the boundary (or when the reader reports EOF together
-    with its last bytes) 413 <-> the decoded body is larger than the limit — for every chunking. *)
-Theorem C32_limit_iff_partial :
+(** The size clause, FULL: given the preconditions and a stream that ends with EOF, the answer
+    is 413 exactly when the decoded body is larger than the limit — for every chunking, both
+    ways of signalling EOF and any number of (0, nil) answers of the reader.  (Before commit
+    ea653b404e this was refuted at |body| = limit, see [C32_before_fix_counterexample].) *)
+Theorem C32_limit_iff :
   forall script q,
     precheck q = None -> u_end (q_stream q) = EndEOF -> (0 < q_limit q)%Z ->
-    (Z.of_nat (length (u_rem (q_stream q))) <> q_limit q \/ u_eager (q_stream q) = true) ->
     (r_status (handle script q) = 413%N <-> (q_limit q < Z.of_nat (length (u_rem (q_stream q))))%Z).
-Proof. exact limit_iff_partial. Qed.
-Print Assumptions C32_limit_iff_partial.
+Proof. exact limit_iff. Qed.
+Print Assumptions C32_limit_iff.
 
-(** ... and AT the boundary the request is rejected exactly when the reader below reports its
-    EOF on a separate call, whatever the chunking. *)
-Theorem C32_limit_exact_rejected_iff_late_eof :
+(** ... and at the level of the reader: after io.ReadAll, Close reports the limit iff the
+    decoded body is larger than the limit, whatever error ends the stream. *)
+Theorem C32_close_reports_limit_iff_larger :
+  forall script limit u, (0 < limit)%Z ->
+    (snd (res3 (read_all script (batch_reader limit u) [])) = true
+     <-> (limit < Z.of_nat (length (u_rem u)))%Z).
+Proof. exact limit_flag_iff. Qed.
+Print Assumptions C32_close_reports_limit_iff_larger.
+
+(** The probe propagates the wrapped reader's error: a body of exactly the limit whose gzip
+    trailer is corrupt is answered 400 "invalid" (the checksum error now reaches io.ReadAll
+    instead of being masked by EOF), a truncated one or a reader that answers (0, nil) a hundred
+    times (io.ErrNoProgress) 500; in every case of a stream that does not end cleanly within the
+    accepted size: an error status and nothing stored. *)
+Theorem C32_bad_stream_rejected_stores_nothing :
   forall script q,
-    precheck q = None -> u_end (q_stream q) = EndEOF -> (0 < q_limit q)%Z ->
-    Z.of_nat (length (u_rem (q_stream q))) = q_limit q ->
-    (r_status (handle script q) = 413%N <-> u_eager (q_stream q) = false).
-Proof. exact limit_exact_iff_late_eof. Qed.
-Print Assumptions C32_limit_exact_rejected_iff_late_eof.
+    precheck q = None ->
+    (u_end (q_stream q) <> EndEOF \/ ~ progresses q) -> accepted_size q ->
+    (u_end (q_stream q) = EndEOF -> (0 < q_limit q)%Z /\ Z.of_nat (length (u_rem (q_stream q))) = q_limit q) ->
+    handle script q = resp 400 C_INVALID \/ handle script q = resp 500 C_INTERNAL.
+Proof. exact bad_stream_rejected. Qed.
+Print Assumptions C32_bad_stream_rejected_stores_nothing.
 
 (** A decoded body larger than the limit: 413, error code "request too large", nothing stored —
     whatever its content (malformed lines included), whatever the writer would answer. *)
@@ -76,7 +64,7 @@ Print Assumptions C32_too_large_rejected_stores_nothing.
     parsePoint fails, in order. *)
 Theorem C32_malformed_stores_nothing :
   forall script q,
-    precheck q = None -> u_end (q_stream q) = EndEOF -> accepted_size q ->
+    precheck q = None -> u_end (q_stream q) = EndEOF -> accepted_size q -> progresses q ->
     (exists t, In t (candidate_lines (u_rem (q_stream q))) /\ is_ok (parse_point (q_prec q) DFLT t) = false) ->
     handle script q = {| r_status := 400; r_code := C_INVALID; r_rejected := bad_lines q;
                          r_dropped := None; r_calls := [] |}.
@@ -99,7 +87,7 @@ Print Assumptions C32_ok_only_after_all_stored.
     answered 422 with the dropped count in the message; any other writer error 500. *)
 Theorem C32_writer_error_reported :
   forall script q,
-    precheck q = None -> u_end (q_stream q) = EndEOF -> accepted_size q ->
+    precheck q = None -> u_end (q_stream q) = EndEOF -> accepted_size q -> progresses q ->
     (forall t, In t (candidate_lines (u_rem (q_stream q))) -> is_ok (parse_point (q_prec q) DFLT t) = true) ->
     handle script q =
       match q_writer q with
@@ -122,17 +110,17 @@ Theorem C32_nothing_stored_unless_all_handed_over :
 Proof. exact no_store_unless_writer_called. Qed.
 Print Assumptions C32_nothing_stored_unless_all_handed_over.
 
-(** The proposed repair of LimitedReadCloser.Read ([lrc_read_fixed]: with the budget used up,
-    probe the wrapped reader with a one-byte buffer and flag the limit only if a byte arrives):
-    for every chunking and BOTH ways of signalling EOF, Close reports the limit iff the decoded
-    body is larger than the limit, and otherwise ReadAll returns the whole body. *)
-Theorem C32_fixed_limit_iff :
-  forall script limit u, (0 < limit)%Z ->
-    res3 (read_all_fixed script (batch_reader limit u) []) =
-      if (Z.of_nat (length (u_rem u)) <=? limit)%Z then (u_rem u, fail_of (u_end u), false)
-      else (firstn (Z.to_nat limit) (u_rem u), None, true).
-Proof. exact read_all_fixed_spec. Qed.
-Print Assumptions C32_fixed_limit_iff.
+(** The code before commit ea653b404e ([lrc_read_before_fix]: the limit was flagged as soon as
+    Read was CALLED with N <= 0): a well-formed 8-byte body under limit 8 over a reader that
+    reports EOF on a separate call was flagged too large; the committed Read accepts it. *)
+Example C32_before_fix_counterexample :
+  let u := {| u_rem := [109; 32; 102; 61; 49; 32; 49; 10]%N; u_end := EndEOF; u_eager := false; u_stall := 0 |} in
+  snd (res3 (read_all_before_fix [] (batch_reader 8 u) [])) = true /\
+  res3 (read_all [] (batch_reader 8 u) []) = (u_rem u, None, false) /\
+  r_status (handle [] {| q_auth := true; q_prec_valid := true; q_bucket_param := true; q_gzip_header := true;
+     q_org_found := true; q_bucket_found := true; q_perm := true; q_prec := P_ns; q_limit := 8;
+     q_stream := u; q_writer := WOk |}) = 204%N.
+Proof. vm_compute. repeat split; reflexivity. Qed.
 
 (** Non-vacuity: a three-line body with one malformed line under a generous limit is answered
     400 naming that line; without it the two points reach the writer and a partial write is
@@ -140,7 +128,7 @@ Print Assumptions C32_fixed_limit_iff.
 Example C32_nonvacuous :
   let mk body w := {| q_auth := true; q_prec_valid := true; q_bucket_param := true; q_gzip_header := true;
      q_org_found := true; q_bucket_found := true; q_perm := true; q_prec := P_ns; q_limit := 100;
-     q_stream := {| u_rem := body; u_end := EndEOF; u_eager := false |}; q_writer := w |} in
+     q_stream := {| u_rem := body; u_end := EndEOF; u_eager := false; u_stall := 2 |}; q_writer := w |} in
   (* "m f=1 1\nbad\nn f=2 2\n" *)
   handle [(3, 2); (0, 0)]%nat (mk [109;32;102;61;49;32;49;10; 98;97;100;10; 110;32;102;61;50;32;50;10]%N WOk)
     = {| r_status := 400; r_code := C_INVALID; r_rejected := [[98;97;100]%N]; r_dropped := None; r_calls := [] |}
